@@ -374,6 +374,8 @@ def diff_cause(d: semrun.Diff) -> str:
         v = leaf.get(d.keyword)
         if isinstance(v, float) and v != int(v):
             return "nonintegral_bound_on_integer"
+    if leaf.get("k") == "object" and leaf.get("type_list_null") and not leaf.get("props") and isinstance(leaf.get("ap"), dict) and d.location == "ap_value":
+        return "nullable_map_value"  # the map object itself is the leaf: its value schema is not reported at all
     if d.keyword == "required":
         if leaf.get("inherited_required"):
             return "allOf_required_inherited_member"
@@ -810,6 +812,28 @@ def campaign_inherit(ck: Check, n: int) -> None:
         c.wall_s = round((time.time() - t0) / 2, 2)
 
 
+def campaign_nullable(ck: Check, n: int) -> None:
+    """the nullable-type-list family of C03 (every type × every position) under C04's oracle: constraints stated below
+    or next to a `"type": [T, "null"]` must still be enforced and reported"""
+    camp = ck.campaign("e2e oracle, family: nullable type lists [T, \"null\"] for every type T × every position: one-step invalid mutations rejected, keywords reported")
+    t0 = time.time()
+    rng = ck.rng.fork("fam-nullable")
+    off = rng.below(96)
+    for i in range(n):
+        doc, feats, cand = semfam.nullable_doc(rng.fork(str(i)), off + i)
+        for f in feats:
+            camp.hit(f"feature:{f}")
+        insts = semgen.valid_instances(doc, limit=8)
+        insts += [c for c in cand if c not in insts and semgen.is_valid(doc, c)][:6]
+        muts = []
+        for inst in insts[:3]:
+            muts += semgen.mutations(doc, inst)
+        for st in STYLES:
+            for r in ("contype", "field"):
+                oracle_doc(ck, camp, doc, st, r, insts, muts)
+    camp.wall_s = time.time() - t0
+
+
 def campaign_lattice(ck: Check, n: int) -> None:
     """`required` next to `allOf` naming INHERITED members, over inheritance lattices (several `$ref` bases, depth
     >= 2, diamonds): the member must be required in the generated class — the missing-member mutation rejected,
@@ -901,6 +925,7 @@ def run(ck: Check) -> None:
     campaign_pfields(ck, 60 if quick else 600)
     campaign_focused(ck)
     campaign_random(ck, 80 if quick else 1200)
+    campaign_nullable(ck, 13 if quick else 120)
     campaign_inherit(ck, 24 if quick else 300)
     campaign_lattice(ck, 14 if quick else 150)
     ck.search_hooks.append(search_broken_keyword)
